@@ -176,6 +176,22 @@ def gen_universe(rnd, uid):
         body = '\n'.join(l for l in files[other]['text'].split('\n') if not l.startswith('big ='))
         files[other]['text'] = f'[{other}v {k.title()}]\nmatch: big and contains("{k}")\ncategory: Var-{other}\n\n' + body
         leak = other
+    # top-level variables that read data only SOME transactions have (a captured field; a supplemental row with
+    # the same amount) and rules that use them: evaluating the variable raises for the other transactions, which
+    # must not influence any later transaction (engine-internal memo / state)
+    partial = []
+    txns.append({'description': f'{k} NOFIELD', 'amount': 250.0, 'date': '2025-01-15', 'field': None,
+                 'source': 'Chase', 'location': None})          # both variables below raise on this one
+    for name in sorted(n_ for n_, f in files.items() if f['suffix'] == '.rules'):
+        if rnd.random() < (0.85 if name == 'A' else 0.4):
+            var, rule = rnd.choice([
+                ('is_ach = field.kind == "ACH"', f'is_ach and contains("{k}")'),
+                ('top_item = [r.item for r in orders if r.amount == amount][0]', f'top_item == "Book" and contains("{k}")'),
+                ('is_low = field.kind == "ach"', f'is_low and contains("{k}")'),
+            ])
+            files[name]['text'] = (var + '\n' + f'[{name}p {k.title()}]\nmatch: {rule}\ncategory: Partial-{name}\n'
+                                   + rnd.choice(['', 'tags: partial\n']) + '\n' + files[name]['text'])
+            partial.append(name)
     pool = [e for tpl in match_templates(k, rnd.choice(TOKENS)) for e in tpl if e]
     exprs = rnd.sample(pool, 4) + rnd.sample(
         ['amount > 100', ' amount > 100 ', 'Amount > 100', 'amount >', '__import__("os")', 'description.lower()',
@@ -184,7 +200,7 @@ def gen_universe(rnd, uid):
         if rnd.random() < 0.3:
             exprs.append(e)
     fexprs = ['sum(payments) > 10 and "x" in tags', 'count(payments) > 1', 'amount > 100']
-    return {'id': uid, 'files': files, 'txns': txns, 'exprs': exprs, 'filter_exprs': fexprs, 'twins': twins, 'leak': leak,
+    return {'id': uid, 'files': files, 'txns': txns, 'exprs': exprs, 'filter_exprs': fexprs, 'twins': twins, 'leak': leak, 'partial': partial,
             'data_sources': {'orders': [{'item': 'Book', 'amount': 50.0}, {'item': 'Pen', 'amount': 5.0}]}}
 
 
@@ -224,7 +240,7 @@ def twin_histories(rnd, uni, n):
         a, b = rnd.choice(uni['twins'])
         if rnd.random() < 0.5:
             a, b = b, a
-        t = rnd.choice([nt - 1, nt - 2])
+        t = rnd.choice([nt - 2, nt - 3])
         h = [{'op': 'eval', 'src': a, 'txn': t}, {'op': 'eval', 'src': rnd.choice([b, b, ' ' + b, b + ' ']), 'txn': t}]
         if rnd.random() < 0.3:
             h.insert(0, {'op': 'load', 'file': rnd.choice(sorted(uni['files']))})
@@ -243,7 +259,26 @@ def reparse_histories(rnd, uni, n):
         if j == 0 and uni.get('leak'):
             a, b = 'A', uni['leak']
         out.append([{'op': 'engparse', 'file': a}, {'op': 'engparse', 'file': b},
-                    {'op': 'engmatch', 'txn': rnd.choice([nt - 1, nt - 2])}, {'op': 'engmatch', 'txn': rnd.randrange(nt)}])
+                    {'op': 'engmatch', 'txn': rnd.choice([nt - 2, nt - 3])}, {'op': 'engmatch', 'txn': rnd.randrange(nt)}])
+    return out
+
+
+def partial_variable_histories(rnd, uni, n):
+    """a transaction on which a top-level variable raises FIRST, then one on which it is defined and decides the
+    rule — through get_all_rules + normalize_merchant and through one long-lived MerchantEngine.match"""
+    out = []
+    nt = len(uni['txns'])
+    bad, good = nt - 1, [nt - 3, nt - 2]          # NOFIELD; the two twin transactions (field + amount present)
+    for j in range(n):
+        if not uni.get('partial'):
+            break
+        f = uni['partial'][j % len(uni['partial'])]
+        first = [bad] if rnd.random() < 0.7 else [rnd.randrange(nt), bad]
+        seq = first + good + ([rnd.randrange(nt)] if rnd.random() < 0.5 else [])
+        if j % 2 == 0:
+            out.append([{'op': 'load', 'file': f}] + [{'op': 'classify', 'txn': t} for t in seq])
+        else:
+            out.append([{'op': 'engparse', 'file': f}] + [{'op': 'engmatch', 'txn': t} for t in seq])
     return out
 
 
@@ -678,7 +713,8 @@ def main(tier):
     unis = [gen_universe(rnd, i) for i in range(n_uni)]
     all_hists = []
     for i, u in enumerate(unis):
-        hs = [gen_history(rnd, u) for _ in range(n_hist)] + twin_histories(rnd, u, n_twin) + reparse_histories(rnd, u, 2)
+        hs = [gen_history(rnd, u) for _ in range(n_hist)] + twin_histories(rnd, u, n_twin) + reparse_histories(rnd, u, 2) + \
+            partial_variable_histories(rnd, u, 2)
         if i < n_sys:
             hs += systematic_histories(u)
         all_hists.append(hs)
